@@ -53,6 +53,8 @@ fixed = [
       what='fixed: property=C02 506067a same defect: the open branch was unsaturated and its model no countermodel'),
  dict(property='C14', status='fixed', commit='60a4cb6', key='C14.R5/Predicate((-1, 0, 2),) with the spec never cached',
       what='fixed: property=C14 60a4cb6 Predicate((-1,0,2)) / Predicated(*s.spec) / LexicalAbc(s.ident) for Identity and Existence sentences raised ValueError once ~1000 later items had evicted the system predicate spec from the construction cache'),
+ dict(property='C18', status='fixed', commit='895ee8f', key='C18.R9/Predicates/setitem/accepted-conflict',
+      what='fixed: property=C18 895ee8f Predicates([(1,0,1),(2,0,1)])[0:2] = [(0,0,1),(0,0,2)] was accepted: arriving predicates were checked against the store but not against each other, leaving two predicates with one symbol and different arities'),
 ]
 CLASSICAL = ('CPL', 'CFOL', 'K', 'D', 'T', 'S4', 'S5')
 def triage(prop, f):
